@@ -99,20 +99,26 @@ section
 open NitroVerif.CheckTs
 
 /-- `checkTs_total`: `check_type_system_document` (type_system_checker/*.rs) has no panic site (`check_unique_names`,
-    which runs first since fix 8cdbacf, is one bounded pass over the definitions); its only unbounded loop is
+    which runs first since fix 8cdbacf, is one bounded pass over the definitions); its only unbounded loops are
     the breadth-first search of `check_directive_recursion`, which the model runs with `|T| + 2` rounds of fuel and a
-    SILENT out-of-fuel branch.  For every document, every fuel `n ≥ |T| + 2` and every behaviour `Z` of the out-of-fuel
-    branch, the checker run with `(n, Z)` reports exactly what `checkSchema` reports: the branch is never evaluated —
-    every round that continues puts a new directive name of the document into `seen`, whether or not it reports. (C05
-    proved this only for searches that report nothing; here it holds for every directive definition, also one that is
-    shadowed by a later definition of its name.) -/
-theorem checkTs_total (T : TsDoc) (n : Nat) (Z : List Name → List DirectiveDef → List Err) (hn : T.length + 2 ≤ n) :
-    checkSchemaX T n Z = checkSchema T :=
-  checkSchemaX_eq T n Z hn
+    SILENT out-of-fuel branch, and — since fix 2e4a65e — the recursion of `directives_in_type` through the types of
+    the fields of nested input objects, which the model runs with `|T| + 1` nesting levels of fuel and a silent
+    out-of-fuel branch.  For every document, every fuel `n ≥ |T| + 2` and every behaviour `Z` of the first out-of-fuel
+    branch, every fuel `m ≥ |T| + 1` and every behaviour `ZT` of the second, the checker run with `(n, Z, m, ZT)` reports
+    exactly what `checkSchema` reports: neither branch is ever evaluated — every round that continues puts a new
+    directive name of the document into `seen`, whether or not it reports, and every nested call of
+    `directives_in_type` that does not return at once puts a new input-object name of the document into `seen_types`.
+    (C05 proved the first only for searches that report nothing; here it holds for every directive definition, also one
+    that is shadowed by a later definition of its name.) -/
+theorem checkTs_total (T : TsDoc) (n : Nat) (Z : List Name → List DirectiveDef → List Err) (m : Nat) (ZT : WalkZ)
+    (hn : T.length + 2 ≤ n) (hm : T.length + 1 ≤ m) :
+    checkSchemaX T n Z m ZT = checkSchema T :=
+  checkSchemaX_eq T n Z m ZT hn hm
 
-/-- … in particular an out-of-fuel branch that REPORTS (instead of staying silent) changes nothing -/
-example (T : TsDoc) : checkSchemaX T (T.length + 2) (fun _ _ => [(CheckTs.ErrKind.RecursingDirective, {})]) = checkSchema T :=
-  checkTs_total T _ _ (Nat.le_refl _)
+/-- … in particular out-of-fuel branches that REPORT / invent a directive (instead of staying silent) change nothing -/
+example (T : TsDoc) : checkSchemaX T (T.length + 2) (fun _ _ => [(CheckTs.ErrKind.RecursingDirective, {})])
+    (T.length + 1) (fun _ seen => ([{ name := "boom" }], seen)) = checkSchema T :=
+  checkTs_total T _ _ _ _ (Nat.le_refl _) (Nat.le_refl _)
 
 end
 
